@@ -258,6 +258,16 @@ pub fn replay_registry(args: &Args) {
     for v in read_vectors(args.s("in")) {
         rep.evaluated += 1;
         let n = v["n"].as_u64().unwrap();
+        if v["kind"] == "big" {
+            // numbers beyond the registries' width: base + 2^shift (wrapping at the platform's usize)
+            let big = (v["base"].as_u64().unwrap() as usize).wrapping_add(1usize.wrapping_shl(v["shift"].as_u64().unwrap() as u32));
+            let cf = ContentFormat::try_from(big).map(cf_name).unwrap_or("-");
+            let obs = match ObserveOption::try_from(big) { Ok(ObserveOption::Register) => "register", Ok(ObserveOption::Deregister) => "deregister", Err(_) => "-" };
+            if cf != v["cf"].as_str().unwrap() || obs != v["obs"].as_str().unwrap() {
+                rep.bad("C05", "a number beyond the registry's width is aliased to a named value", json!({"row": v, "number": big.to_string(), "cf": cf, "obs": obs}));
+            }
+            continue;
+        }
         if v["kind"] == "catchall" {
             // the catch-all variants of the two code enums: their byte, what the byte reads back as, is_error
             let (b, kind, err) = match v["space"].as_str().unwrap() {
@@ -393,6 +403,37 @@ pub fn replay_registry(args: &Args) {
         if !named_seen.contains(&k) {
             tool_error(&format!("crate vocabulary name {:?} is not in Registry.tla", k));
         }
+    }
+    rep.write(args.s("out"));
+}
+
+/// Growth (text forms): Header::set_code on every text MC_CodeText enumerates.  Expected: the code the
+/// specification parses, or a violated precondition (panic); never a different code.
+pub fn replay_codetext(args: &Args) {
+    let mut rep = Report::default();
+    for v in read_vectors(args.s("in")) {
+        rep.evaluated += 1;
+        let text: String = v["t"].as_array().unwrap().iter().map(|c| c.as_u64().unwrap() as u8 as char).collect();
+        let got = guarded(|| {
+            let mut h = Header::new();
+            h.code = MessageClass::Reserved(0xEE);
+            h.set_code(&text);
+            (u8::from(h.code), h.get_code())
+        });
+        let want_ok = v["ok"].as_bool().unwrap();
+        let ok = match (&got, want_ok) {
+            (None, false) => true,
+            (Some((b, back)), true) => {
+                let code = v["code"].as_u64().unwrap() as u8;
+                // the stored code reads back as the canonical c.dd text of the same byte
+                *b == code && *back == format!("{}.{:02}", code >> 5, code & 31)
+            }
+            _ => false,
+        };
+        if !ok {
+            rep.bad("C05", "set_code(text) differs from ParseCodeText", json!({"row": v, "text": text, "got": format!("{:?}", got)}));
+        }
+        rep.count(if want_ok { "accepted" } else { "precondition" });
     }
     rep.write(args.s("out"));
 }
